@@ -148,7 +148,7 @@ def stepDiv (w : Nat) : Cell → Cell
   | .nan => .nan
   | _ => .untracked
 
-/-- how the source forms the integer difference (decided from the generated kernel bodies):
+/-- how the source forms the integer difference (decided from the generated normalised kernels):
 `native` = `X[i, j] - y[j]` in the promoted C type (the code as found);
 `viaDouble` = the repaired form `<double>X[i, j] - <double>y[j]` (for int64 operands of equal
 sign: `<double>(X[i, j] - y[j])`, which cannot overflow) — exact up to float rounding, which
@@ -157,39 +157,123 @@ inductive IntArith where
   | native | viaDouble
   deriving DecidableEq, Repr
 
-/-- loop / `out[i]` statements of the kernels as found -/
-def nativeBodies : List (String × List String) :=
-  [("_euclidean", ["for i in prange(n_samples, nogil=True):", "out[i] = 0",
-                   "for i in prange(n_samples, nogil=True):", "for j in range(n_features):",
-                   "out[i] += (X[i, j] - y[j])**2",
-                   "for i in prange(n_samples, nogil=True):", "out[i] = sqrt(out[i])"]),
-   ("_hamming", ["for i in prange(n_samples, nogil=True):", "out[i] = 0",
-                 "for j in range(n_features):", "if y[j] != X[i, j]:", "out[i] += 1",
-                 "out[i] /= n_features"]),
-   ("_manhattan", ["for i in prange(n_samples, nogil=True):", "out[i] = 0",
-                   "for i in prange(n_samples, nogil=True):", "for j in range(n_features):",
-                   "out[i] += fabs(X[i, j] - y[j])"])]
+/-- normalised structure of the three kernels as found (see `normalise_kernel` in
+harness/props/c13.py: parameters by position X, Y, OUT; loop variables L0, L1 by nesting depth;
+scalar temporaries inlined, typed arithmetic temporaries kept as `<type>(…)`; comments, docstrings,
+messages, declaration order, `while` counting loops and `with nogil:` grouping normalised away) -/
+def nativeKernels : List (String × List String) :=
+  [("_euclidean", ["dec:boundscheck(False)",
+      "dec:wraparound(False)",
+      "arg:X:FLOAT_TYPE_T:2",
+      "arg:Y:FLOAT_TYPE_T:1",
+      "arg:OUT:float64:1",
+      "guard:len(OUT)==X.shape[0]",
+      "guard:len(Y)==X.shape[1]",
+      "loop:0|prange|len(OUT)",
+      "write:1||OUT[L0]=0",
+      "loop:0|prange|len(OUT)",
+      "loop:1|range|len(Y)",
+      "write:2||OUT[L0]+=(X[L0,L1]-Y[L1])**2",
+      "loop:0|prange|len(OUT)",
+      "write:1||OUT[L0]=sqrt(OUT[L0])",
+      "ret:OUT.reshape(-1,1)"]),
+   ("_hamming", ["dec:boundscheck(False)",
+      "dec:wraparound(False)",
+      "arg:X:INTEGRAL_TYPE_T:2",
+      "arg:Y:INTEGRAL_TYPE_T:1",
+      "arg:OUT:float64:1",
+      "guard:len(OUT)==X.shape[0]",
+      "guard:len(Y)==X.shape[1]",
+      "loop:0|prange|len(OUT)",
+      "write:1||OUT[L0]=0",
+      "loop:1|range|len(Y)",
+      "write:2|Y[L1]!=X[L0,L1]|OUT[L0]+=1",
+      "write:1||OUT[L0]/=len(Y)",
+      "ret:OUT"]),
+   ("_manhattan", ["dec:boundscheck(False)",
+      "dec:wraparound(False)",
+      "arg:X:FLOAT_TYPE_T:2",
+      "arg:Y:FLOAT_TYPE_T:1",
+      "arg:OUT:float64:1",
+      "guard:len(OUT)==X.shape[0]",
+      "guard:len(Y)==X.shape[1]",
+      "loop:0|prange|len(OUT)",
+      "write:1||OUT[L0]=0",
+      "loop:0|prange|len(OUT)",
+      "loop:1|range|len(Y)",
+      "write:2||OUT[L0]+=fabs(X[L0,L1]-Y[L1])",
+      "ret:OUT.reshape(-1,1)"])]
 
 /-- the same with the overflow repair of `/tmp/fix-proposals/C13-overflow.diff` -/
-def repairedBodies : List (String × List String) :=
-  [("_euclidean", ["for i in prange(n_samples, nogil=True):", "out[i] = 0",
-                   "for i in prange(n_samples, nogil=True):", "for j in range(n_features):",
-                   "if FLOAT_TYPE_T is np.int64_t and (X[i, j] < 0) == (y[j] < 0):",
-                   "out[i] += (<double>(X[i, j] - y[j]))**2", "else:",
-                   "out[i] += (<double>X[i, j] - <double>y[j])**2",
-                   "for i in prange(n_samples, nogil=True):", "out[i] = sqrt(out[i])"]),
-   ("_hamming", ["for i in prange(n_samples, nogil=True):", "out[i] = 0",
-                 "for j in range(n_features):", "if y[j] != X[i, j]:", "out[i] += 1",
-                 "out[i] /= n_features"]),
-   ("_manhattan", ["for i in prange(n_samples, nogil=True):", "out[i] = 0",
-                   "for i in prange(n_samples, nogil=True):", "for j in range(n_features):",
-                   "if FLOAT_TYPE_T is np.int64_t and (X[i, j] < 0) == (y[j] < 0):",
-                   "out[i] += fabs(X[i, j] - y[j])", "else:",
-                   "out[i] += fabs(<double>X[i, j] - <double>y[j])"])]
+def repairedKernels : List (String × List String) :=
+  [("_euclidean", ["dec:boundscheck(False)",
+      "dec:wraparound(False)",
+      "arg:X:FLOAT_TYPE_T:2",
+      "arg:Y:FLOAT_TYPE_T:1",
+      "arg:OUT:float64:1",
+      "guard:len(OUT)==X.shape[0]",
+      "guard:len(Y)==X.shape[1]",
+      "loop:0|prange|len(OUT)",
+      "write:1||OUT[L0]=0",
+      "loop:0|prange|len(OUT)",
+      "loop:1|range|len(Y)",
+      "write:2|FLOAT_TYPE_T is np.int64_t and(X[L0,L1]<0)==(Y[L1]<0)|OUT[L0]+=(<double>(X[L0,L1]-Y[L1]))**2",
+      "write:2|not(FLOAT_TYPE_T is np.int64_t and(X[L0,L1]<0)==(Y[L1]<0))|OUT[L0]+=(<double>X[L0,L1]-<double>Y[L1])**2",
+      "loop:0|prange|len(OUT)",
+      "write:1||OUT[L0]=sqrt(OUT[L0])",
+      "ret:OUT.reshape(-1,1)"]),
+   ("_hamming", ["dec:boundscheck(False)",
+      "dec:wraparound(False)",
+      "arg:X:INTEGRAL_TYPE_T:2",
+      "arg:Y:INTEGRAL_TYPE_T:1",
+      "arg:OUT:float64:1",
+      "guard:len(OUT)==X.shape[0]",
+      "guard:len(Y)==X.shape[1]",
+      "loop:0|prange|len(OUT)",
+      "write:1||OUT[L0]=0",
+      "loop:1|range|len(Y)",
+      "write:2|Y[L1]!=X[L0,L1]|OUT[L0]+=1",
+      "write:1||OUT[L0]/=len(Y)",
+      "ret:OUT"]),
+   ("_manhattan", ["dec:boundscheck(False)",
+      "dec:wraparound(False)",
+      "arg:X:FLOAT_TYPE_T:2",
+      "arg:Y:FLOAT_TYPE_T:1",
+      "arg:OUT:float64:1",
+      "guard:len(OUT)==X.shape[0]",
+      "guard:len(Y)==X.shape[1]",
+      "loop:0|prange|len(OUT)",
+      "write:1||OUT[L0]=0",
+      "loop:0|prange|len(OUT)",
+      "loop:1|range|len(Y)",
+      "write:2|FLOAT_TYPE_T is np.int64_t and(X[L0,L1]<0)==(Y[L1]<0)|OUT[L0]+=fabs(X[L0,L1]-Y[L1])",
+      "write:2|not(FLOAT_TYPE_T is np.int64_t and(X[L0,L1]<0)==(Y[L1]<0))|OUT[L0]+=fabs(<double>X[L0,L1]-<double>Y[L1])",
+      "ret:OUT.reshape(-1,1)"])]
+
+/-- what a public wrapper does before / around the kernel call, helper calls resolved transitively
+(`trace_wrapper` in c13.py): the validation predicates in order (exception type | path condition |
+condition; `%raw:OUT.shape` = the message is built with a bare tuple operand, i.e. the `TypeError`
+of L67-71), then the kernel call and the returned expression with the symbolic value of `out` -/
+def modelledTrace (kernel : String) : List (String × String) :=
+  [("raise", "DataInvalid||len(X.shape) != 2"),
+   ("raise", "DataInvalid||len(Y.shape) != 1"),
+   ("raise", "DataInvalid||X.shape[1] != Y.shape[0]"),
+   ("raise", "DataInvalid|not (OUT is None)|OUT.dtype != np.float64"),
+   ("raise", "DataInvalid|not (OUT is None)|OUT.shape[0] != X.shape[0]"),
+   ("raise", "DataInvalid%raw:OUT.shape|not (OUT is None)|len(OUT.shape) != 1"),
+   ("call", kernel ++ "(X, Y, np.zeros(X.shape[0], dtype=np.float64) if OUT is None else OUT)"),
+   ("return", "np.zeros(X.shape[0], dtype=np.float64) if OUT is None else OUT")]
+
+/-- a generated trace is acceptable when it contains the modelled events in the modelled order,
+and everything it contains beyond them is a further validation predicate (`raise`) -/
+def traceOk (wrapper kernel : String) : Bool :=
+  let g := (Gen.wrapperTraces.lookup wrapper).getD []
+  (modelledTrace kernel).isSublist g &&
+  (g.filter (fun e => e.1 != "raise") == (modelledTrace kernel).filter (fun e => e.1 != "raise"))
 
 /-- the arithmetic the current source uses -/
 def intArith : IntArith :=
-  if Gen.kernelBodies = repairedBodies then .viaDouble else .native
+  if Gen.kernels = repairedKernels then .viaDouble else .native
 
 /-- contribution of coordinate `(x, y)` for integer element types -/
 def termInt (a : IntArith) (k : Kernel) (c : CArith) (x y : Int) : Rat :=
